@@ -399,8 +399,9 @@ def run(ctx):
                                 "after every accepted dispatch, rejection of missing keys and unknown values, acceptance of every "
                                 "dispatched literal on a witness configuration, documented literal tables, head-count key derivation. "
                                 "Partial: the override frame is evaluated in the kernel on two witness configurations only and "
-                                "otherwise covered by the differential and the audit; refuted (finding): the head-count override "
-                                "does not reach the table for the remapped country code SWT; caller-dictionary immutability is "
+                                "otherwise covered by the differential and the audit; the head-count override reaches the row "
+                                "create_animal_objects reads for every country code (c13_head_reach, re-proved from the statement "
+                                "order in animal_populations.main; the audit re-tests every species x code); caller-dictionary immutability is "
                                 "checked on the implementation only (the model is functional).")
     ctx.rule = ("case = (option dictionary, country row or none) for the dispatch, or (sequence of direct setter calls, row) for "
                 "histories, or (constants key, country code) for the head-count override; families x values, same-family ordered "
